@@ -407,6 +407,30 @@ func runPurge(rc *RunCtx, prop, variant string) *simkit.Violation {
 	if !buildOK && (variant == "fault-free" || variant == "dedup-onto-orphan") && !fired(w) {
 		return Viol(prop, "purge-command-failed", "PurgeBuildReverseIndex", "", "the index build failed although no store call failed and nothing was interrupted: %v", bt.Err)
 	}
+	if !buildOK && prop == "C13" && variant != "dedup-onto-orphan" {
+		// the operator runs the build again (from scratch, or with --resume), this time without faults: the leftovers of
+		// the failed run must not make the final index unsafe
+		w.Probe("build-reported-failure-then-rerun")
+		resume := t.Bool(1, 2)
+		rc2 := w.Client("purger-rerun")
+		rt, v := doOp(prop, w, rc2, "build-index-rerun", func() (interface{}, error) {
+			if resume {
+				return core.PurgeBuildReverseIndex(p.stores(rc2, main), popts(rc2, "idx-rerun", core.WithPurgeResumeIndex(true))...)
+			}
+			return core.PurgeBuildReverseIndex(p.stores(rc2, main), popts(rc2, "idx-rerun")...)
+		})
+		if v != nil {
+			return v
+		}
+		if rt.Err == nil {
+			buildOK, bt = true, rt
+			rerunComplete = true // (NumEntries of a re-run is not compared)
+			// (a build from scratch is a new index started now; the uploads of this phase have all been committed by now,
+			// so they count as committed before it)
+		} else {
+			w.Note("the re-run of the failed build failed too: %v", rt.Err)
+		}
+	}
 	if !buildOK {
 		w.Probe("build-reported-failure")
 		w.Note("index build reported failure (%v): nothing is claimed for this run", bt.Err)
